@@ -55,12 +55,13 @@ FAMILIES = {
     'truncnorm': ['a', 'b', 'loc', 'pos'],
     'lognorm': ['cshape', 'loc', 'pos'],
     'cnorm': ['loc', 'pos'],
+    'cunif': ['loc', 'pos'],          # user-defined class with a bounded support (rvs + pdf only; logpdf inherited)
 }
-POS_FAMILIES = ('uniform', 'expon', 'gamma', 'beta', 'lognorm')
+POS_FAMILIES = ('uniform', 'expon', 'gamma', 'beta', 'lognorm', 'cunif')
 
 
 def _scipy(dist):
-    return ss.norm if dist == 'cnorm' else getattr(ss, dist)
+    return ss.norm if dist == 'cnorm' else (ss.uniform if dist == 'cunif' else getattr(ss, dist))
 
 
 _CUSTOM = {}
@@ -80,7 +81,17 @@ def _custom_norm():
             def pdf(cls, x, loc=0.0, scale=1.0):
                 return ss.norm.pdf(x, loc, scale)
 
+        class CUnif(elfi.Distribution):
+            @classmethod
+            def rvs(cls, loc=0.0, scale=1.0, size=1, random_state=None):
+                return ss.uniform.rvs(loc, scale, size=size, random_state=random_state)
+
+            @classmethod
+            def pdf(cls, x, loc=0.0, scale=1.0):
+                return ss.uniform.pdf(x, loc, scale)
+
         _CUSTOM['c'] = CNorm
+        _CUSTOM['u'] = CUnif
     return _CUSTOM['c']
 
 
@@ -140,7 +151,7 @@ def gen_spec(rng):
                     args.pop()
         if 'loc' in slots and len(args) <= slots.index('loc'):
             is_pos = False
-        form = 'custom' if dist == 'cnorm' else str(rng.choice(['str', 'str', 'obj']))
+        form = 'custom' if dist in ('cnorm', 'cunif') else str(rng.choice(['str', 'str', 'obj']))
         params.append({'name': names[i], 'dist': dist, 'form': form, 'args': args})
         if is_pos:
             positive.append(names[i])
@@ -283,6 +294,8 @@ def build(spec):
         args = [made[a['ref']] if isinstance(a, dict) else a for a in p['args']]
         if p['form'] == 'custom':
             dist = _custom_norm()
+            if p['dist'] == 'cunif':
+                dist = _CUSTOM['u']
         elif p['form'] == 'obj':
             dist = getattr(ss, p['dist'])
         else:
@@ -351,7 +364,7 @@ def run_case(ctx, case):
     ctx.event('sel_' + case['mode'])
     if hier:
         ctx.event('specs_hierarchical')
-    if any(by[n]['dist'] == 'cnorm' for n in order):
+    if any(by[n]['dist'] in ('cnorm', 'cunif') for n in order):
         ctx.event('specs_custom_dist')
     ctx.distinct('graph_shape', '%s|%s' % (case['mode'], sorted((by[n]['dist'], len(by[n]['args']), len(_refs(by[n]))) for n in order)))
     if P.dim != dim:
